@@ -195,31 +195,6 @@ Proof.
   rewrite Qcmult_0_r in H. discriminate H.
 Qed.
 
-Lemma polyscale_problem_facts scalar lr pr p :
-  (forall k, scalar = Some k -> k <> 0) ->
-  let qk := polyscale_problem scalar lr pr [] p in
-  snd qk <> 0 /\ forall s, henergy (fst qk) s = snd qk * henergy p s.
-Proof.
-  intros Hk. unfold polyscale_problem. destruct scalar as [k|].
-  - cbn [fst snd]. split; [apply Hk; reflexivity|intros s; apply hscale_nil_energy].
-  - unfold normalize_scalar.
-    match goal with |- context [Qc_eqb ?inv 0] => destruct (Qc_eqb inv 0) eqn:E end.
-    + cbn [fst snd]. split; [intros H; discriminate H|intros s; ring].
-    + cbn [fst snd]. split; [apply Qcinv_nonzero; apply Qc_eqb_false; exact E|intros s; apply hscale_nil_energy].
-Qed.
-
-Theorem polyscale_honest orig scalar lr pr ign r :
-  (forall k, scalar = Some k -> k <> 0) ->
-  let qk := polyscale_problem scalar lr pr ign orig in
-  honest (henergy (fst qk)) r -> honest (henergy orig) (polyscale_result orig (snd qk) ign r).
-Proof.
-  intros Hk qk Hh. destruct ign as [|t ign].
-  - destruct (polyscale_problem_facts scalar lr pr orig Hk) as [Hnz He]. fold qk in Hnz, He.
-    unfold honest, polyscale_result in *. cbn [r_labels r_rows r_energies]. rewrite Hh, map_map.
-    apply map_ext. intros row. rewrite He. unfold Qcdiv. field. exact Hnz.
-  - unfold honest, polyscale_result. reflexivity.
-Qed.
-
 (* ------------------------------------------------------------------ *)
 (* PolyFixedVariableComposite *)
 
